@@ -34,7 +34,6 @@ impl MemoryFS {
             handle: Arc::new(RwLock::new(MemoryFsImpl::new())),
         }
     }
-
 }
 
 impl Default for MemoryFS {
